@@ -49,7 +49,7 @@ func (s *State) get(name string, sort Sort) Term {
 			s.writes[name] = t
 			return t
 		case stHavocSome:
-			if s.mods[name[2:]] || s.mods["*"] {
+			if s.mods[name[2:]] || s.mods["*"] || s.mods["N$"+name[2:]] {
 				t = s.get("$alloc", SBV64)
 				s.writes[name] = t
 				return t
@@ -59,6 +59,8 @@ func (s *State) get(name string, sort Sort) Term {
 	switch s.kind {
 	case stEntry:
 		switch {
+		case strings.HasPrefix(name, "L$"):
+			t = s.vc.declare("E$"+name, sort) // read before initialisation cannot happen: Alloc zeroes first
 		case strings.HasPrefix(name, "G$called$"), strings.HasPrefix(name, "G$held$"), strings.HasPrefix(name, "D$") && sort == SBool:
 			t = tFalse
 		case strings.HasPrefix(name, "G$ncalls$"), name == "G$clock", strings.HasPrefix(name, "G$seq$"):
@@ -77,7 +79,7 @@ func (s *State) get(name string, sort Sort) Term {
 		}
 		return p.get(name, sort)
 	case stHavocAll:
-		if isFrameLocal(name) {
+		if isFrameLocal(name) && !s.mods[name] {
 			t = s.parent.get(name, sort)
 		} else {
 			t = s.vc.declareFresh(name+"!h", sort)
@@ -85,6 +87,9 @@ func (s *State) get(name string, sort Sort) Term {
 	case stHavocSome:
 		if s.mods[name] || s.mods["*"] {
 			t = s.vc.declareFresh(name+"!l", sort)
+		} else if s.mods["N$"+name] && strings.HasPrefix(string(sort), "(Array (_ BitVec 64) ") {
+			// only objects allocated since the parent state may differ
+			t = s.vc.freshAbove(name, s.parent.get(name, sort), s.parent.get("$alloc", SBV64))
 		} else {
 			t = s.parent.get(name, sort)
 		}
@@ -125,7 +130,7 @@ func (s *State) set(name string, t Term) {
 // isFrameLocal: names that unknown calls cannot change (ghost call events are updated
 // explicitly; defer registration flags are local to the frame).
 func isFrameLocal(name string) bool {
-	return len(name) > 2 && (name[:2] == "D$" || name[:2] == "G$")
+	return len(name) > 2 && (name[:2] == "D$" || name[:2] == "G$" || name[:2] == "L$")
 }
 
 func (vc *VC) mergeStates(preds []*State, conds []Term) *State {
